@@ -67,6 +67,38 @@ def pubkey_independent_of_secret(ai: int, sub: bool, prot: bool, u255: bool, a: 
     return out == want
 
 
+from datetime import datetime, timezone, timedelta
+ZONES = (timezone.utc, timezone(timedelta(hours=2)), timezone(timedelta(hours=-5, minutes=-30)), timezone(timedelta(hours=14)), None)
+STAMPS = (0, 1, 1_600_000_000, 2 ** 31 - 1, 2 ** 31, 2 ** 32 - 1)
+
+
+@ob('O7.1-tz', 'the public packet derived from a secret key packet carries the same creation instant whatever zone the creation time was given in (zone-aware, non-UTC, or naive = UTC)',
+    'creation time = one of 6 boundary instants rendered in one of {UTC, +02:00, -05:30, +14:00, naive}; RSA and EdDSA material with 2 symbolic secret octets; primary or subkey', cond_timeout={'q': 280, 't': 600}, flags=('symmpi',))
+def pubkey_creation_time(zi: int, si: int, eddsa: bool, sub: bool, a: int, b: int) -> bool:
+    """
+    pre: 0 <= zi < 5 and 0 <= si < 6
+    pre: 128 <= a < 256 and 128 <= b < 256
+    post: _
+    """
+    zone, stamp = ZONES[0], STAMPS[0]
+    for k in range(5):
+        if zi == k:
+            zone = ZONES[k]
+    for k in range(6):
+        if si == k:
+            stamp = STAMPS[k]
+    alg, pubmat, mk = materials(3 if eddsa else 0)
+    sk = Packet(bytearray(pack(7 if sub else 5, pub_body(alg, pubmat) + b'\x00' + mk(a, b, a, b) + b'\x00\x00', 0)))
+    if zone is None:
+        sk.created = datetime.fromtimestamp(stamp, timezone.utc).replace(tzinfo=None)        # naive values are taken as UTC
+    else:
+        sk.created = datetime.fromtimestamp(stamp, zone)
+    t4 = bytes([(stamp // 16777216) % 256, (stamp // 65536) % 256, (stamp // 256) % 256, stamp % 256])
+    pub = sk.pubkey()
+    want = pack(14 if sub else 6, pub_body(alg, pubmat, t4), 0)
+    return bytes(pub.__bytearray__()) == want and bytes(sk.__bytearray__())[:len(want)][2:] == want[2:] and str(pub.fingerprint) == str(sk.fingerprint)
+
+
 # ------------------------------------------------------------------------------------ key-level fixtures
 def build_keys():
     base = new_key('alice', sub=True)
@@ -87,6 +119,39 @@ def build_keys():
 BASE, FULL, OTHER = build_keys()
 PROT = new_key('dora', sub=True)
 PROT.protect('pw', K.SymmetricKeyAlgorithm.AES128, HashAlgorithm.SHA1)
+
+
+def foreign_style(key):
+    """the same private key as another producer might have written it: the third-party certification's first hashed subpacket length in the 5-octet form"""
+    from harness.c14 import rebuild_sig, long_form_first_subpacket
+    data = bytes(key.__bytearray__())
+    out = b''
+    i = 0
+    done = False
+    while i < len(data):
+        tag, hl, bl = split_one(data[i:])
+        pkt = data[i:i + hl + bl]
+        if tag == 2 and not done and pkt[hl + 1] == 0x10 and OTHER.fingerprint.keyid.encode() in __import__('binascii').hexlify(pkt).upper():
+            pkt = rebuild_sig(pkt, long_form_first_subpacket)
+            done = True
+        out += pkt
+        i += hl + bl
+    assert done
+    return PGPKey.from_blob(out)[0]
+
+
+FOREIGN = foreign_style(FULL)
+
+
+def sig_packets(data):
+    out = []
+    i = 0
+    while i < len(data):
+        tag, hl, bl = split_one(data[i:])
+        if tag == 2:
+            out.append(bytes(data[i:i + hl + bl]))
+        i += hl + bl
+    return sorted(out)
 
 
 def tags_of(data):
@@ -118,14 +183,14 @@ SECRETS = {id(k): secret_octets(k) for k in (BASE, FULL)}
 
 @ob('O7.2', 'the public twin of a key consists only of public-key, user-id, user-attribute and signature packets, has the same fingerprint, identities and subkeys, '
             'and contains no secret integer as an octet substring; taken before or after export/import of the private key',
-    'key shape from {uid + subkey; two uids + image + third-party / local / revocation signatures + subkey; passphrase-protected}; twin taken directly or from a re-imported private key',
+    'key shape from {uid + subkey; two uids + image + third-party / local / revocation signatures + subkey; passphrase-protected; the second shape as another producer wrote it (non-minimal hashed subpacket length)}; twin taken directly or from a re-imported private key',
     cond_timeout={'q': 280, 't': 600})
 def public_twin_structure(shape: int, reimport: bool) -> bool:
     """
-    pre: 0 <= shape < 3
+    pre: 0 <= shape < 4
     post: _
     """
-    key = (BASE, FULL, PROT)[shape]
+    key = (BASE, FULL, PROT, FOREIGN)[shape]
     if reimport:
         key, _ = PGPKey.from_blob(key.__bytes__())
     pub = key.pubkey
@@ -138,6 +203,9 @@ def public_twin_structure(shape: int, reimport: bool) -> bool:
     if sorted(bytes(u.hashdata) for u in pub.userids) != sorted(bytes(u.hashdata) for u in key.userids) or len(pub.userattributes) != len(key.userattributes):
         return False
     if list(pub.subkeys) != list(key.subkeys):
+        return False
+    # the same exportable signatures, octet for octet (also those another producer encoded non-minimally)
+    if sig_packets(data) != sig_packets(bytes(key.__bytearray__())):
         return False
     if shape < 2:
         for s in SECRETS[id((BASE, FULL)[shape])]:
@@ -215,5 +283,5 @@ def twin_mirror(s0: int, s1: int, s2: int) -> bool:
 
 SANITY = ['pubkey_independent_of_secret(%d, %s, False, False, 0x81, 2, 3, 4)' % (a, s) for a in range(6) for s in (True, False)] + \
          ['pubkey_independent_of_secret(%d, False, True, %s, 0x81, 2, 3, 4)' % (a, u) for a in range(6) for u in (True, False)] + \
-         ['public_twin_structure(%d, %s)' % (s, r) for s in range(3) for r in (True, False)] + ['refusal_matrix(%d, %d)' % (o, f) for o in range(7) for f in range(3)] + \
+         ['public_twin_structure(%d, %s)' % (s, r) for s in range(4) for r in (True, False)] + ['pubkey_creation_time(%d, %d, %s, %s, 0x81, 0x83)' % (z, t, e, e) for z in range(5) for t in (0, 2, 5) for e in (True, False)] + ['refusal_matrix(%d, %d)' % (o, f) for o in range(7) for f in range(3)] + \
          ['twin_mirror(0, 1, 2)', 'twin_mirror(2, 1, 0)', 'twin_mirror(1, 0, 2)']
